@@ -56,6 +56,10 @@ func (*Resolver).VisitConstDecl [C04, C10]
   ensures at(LP, mapHas(r.Module.PublicDecls, decl.NameTok.Literal)) ==> (mapHas(r.Module.PublicDecls, decl.NameTok.Literal) == at(LP, mapHas(r.Module.PublicDecls, decl.NameTok.Literal)) && r.Module.PublicDecls[decl.NameTok.Literal] == at(LP, r.Module.PublicDecls[decl.NameTok.Literal]))
   ensures !(mapHas(r.Module.PublicDecls, decl.NameTok.Literal) == at(LP, mapHas(r.Module.PublicDecls, decl.NameTok.Literal)) && r.Module.PublicDecls[decl.NameTok.Literal] == at(LP, r.Module.PublicDecls[decl.NameTok.Literal])) ==> r.Module.PublicDecls[decl.NameTok.Literal] == decl
 
+// C16, package-wide: nothing that can deliver a diagnostic (or descends into a sub-tree that can) is called from inside
+// a loop that ranges over a map - the sequence of diagnostics is then the same on every run
+ordered err visit [C16]
+
 // ================= C16: argument maps =================
 // the arguments of a call / of a Kombination literal are resolved (and their diagnostics delivered - only the first
 // one of a statement gets through) in an order that does not depend on the iteration order of the argument map
